@@ -110,6 +110,79 @@ theorem inv_survives_content_edit (st : ArgsSt) (id : Oid) (e' : Expr) (h : Inv 
 example : Args.step (Args.editObj (Args.construct [.str sA, .str sA]).1 (.made 1) eB) (.pop 1)
     = (⟨[⟨.made 0, eA⟩], [.grp ⟨.made 0, eA⟩], 2⟩, .item (.grp ⟨.made 1, eB⟩)) := rfl
 
+/-- **Extending by an argument list (a `TexArgs` object, not a plain Python list) is list
+concatenation.** `a.extend(b)` for the argument list `b` of another command, and
+`a.extend(a[lo:hi])` for a slice of `a` itself, never raise, append the *list* elements of the
+source in list order – the same objects –, leave the source alone and keep the invariant.
+The source's shadow list `.all` (whose order need not be the list order) plays no part. -/
+theorem extend_by_args_refines (a b : ArgsSt) (ha : Inv a) (hb : Inv b) (lo hi : Option Int) :
+    (∃ a', Args.stepPair ⟨a, b⟩ (.extendBy false) = (⟨a', b⟩, .none) ∧
+      a'.lst = a.lst ++ b.lst ∧ Inv a') ∧
+    (∃ a', Args.step a (.extendSlice lo hi) = (a', .none) ∧
+      a'.lst = a.lst ++ specSlice a.lst lo hi ∧ Inv a') := by
+  constructor
+  · rcases extendBy_char a b ha hb with ⟨a', h1, h2, _, h4, _⟩
+    exact ⟨a', by simp [Args.stepPair, h1], h2, h4⟩
+  · rcases extendSlice_char a lo hi ha with ⟨a', h1, h2, _, h4, _⟩
+    exact ⟨a', h1, h2, h4⟩
+-- other = TexArgs(['{a}']) then insert(0, '[b]'): its `.all` is {a},[b], its list [b],{a};
+-- target.extend(other) receives [b],{a}
+example :
+    let oth := (Args.run (.empty 0) [.append (.str sA), .insert 0 (.str [91, 98, 93])]).1
+    oth.all.map ArgItem.txt = [sA, [91, 98, 93]] ∧
+    (Args.stepPair ⟨.empty 0, oth⟩ (.extendBy false)).1.tgt.lst.map (fun o => ser o.e)
+      = [[91, 98, 93], sA] := ⟨rfl, rfl⟩
+example : (Args.step stAB (.extendSlice (some (-1)) none)).1.lst = [gA, gB, gB] := rfl
+
+/-- **One step of a history over two argument lists refines two Python lists**: operations on
+either list (`step_refines`) and extending either by the other. -/
+theorem stepPair_refines (s : Args.PairSt) (op : Args.PairOp) (h : InvPair s) :
+    absPair (Args.stepPair s op).1 = (specStepPair (absPair s) op).1 ∧
+    InvPair (Args.stepPair s op).1 ∧
+    OutRel SameObj (Args.stepPair s op).2 (specStepPair (absPair s) op).2 := by
+  rcases h with ⟨ht, ho⟩
+  cases op with
+  | on other op =>
+    cases other with
+    | false =>
+      have := step_refines (Args.syncNext s.tgt s.oth) op (inv_next ht _)
+      exact ⟨by simp only [Args.stepPair, specStepPair, absPair]; rw [this.1]; rfl,
+        ⟨this.2.1, ho⟩, this.2.2⟩
+    | true =>
+      have := step_refines (Args.syncNext s.oth s.tgt) op (inv_next ho _)
+      exact ⟨by simp only [Args.stepPair, specStepPair, absPair]; rw [this.1]; rfl,
+        ⟨ht, this.2.1⟩, this.2.2⟩
+  | extendBy other =>
+    cases other with
+    | false =>
+      rcases extendBy_char s.tgt s.oth ht ho with ⟨a', h1, h2, h3, h4, _⟩
+      simp only [Args.stepPair, specStepPair, absPair, h1]
+      exact ⟨by simp [abs, h2, h3], ⟨h4, ho⟩, trivial⟩
+    | true =>
+      rcases extendBy_char s.oth s.tgt ho ht with ⟨a', h1, h2, h3, h4, _⟩
+      simp only [Args.stepPair, specStepPair, absPair, h1]
+      exact ⟨by simp [abs, h2, h3], ⟨ht, h4⟩, trivial⟩
+example : InvPair ⟨.empty 0, .empty 0⟩ := ⟨inv_empty 0, inv_empty 0⟩
+
+/-- **Histories over two argument lists.** -/
+theorem runPair_refines (s : Args.PairSt) (ops : List Args.PairOp) (h : InvPair s) :
+    absPair (Args.runPair s ops).1 = (specRunPair (absPair s) ops).1 ∧
+    InvPair (Args.runPair s ops).1 ∧
+    OutsRel SameObj (Args.runPair s ops).2 (specRunPair (absPair s) ops).2 := by
+  induction ops generalizing s with
+  | nil => exact ⟨rfl, h, trivial⟩
+  | cons op ops ih =>
+    have hs := stepPair_refines s op h
+    have hr := ih (Args.stepPair s op).1 hs.2.1
+    simp only [Args.runPair, specRunPair]
+    rw [← hs.1]
+    exact ⟨hr.1, hr.2.1, hs.2.2, hr.2.2⟩
+-- \src: a:{a}, i:0:[b];  \dst: a:{a};  dst.extend(src)  ->  {a}[b]{a}
+example : ((Args.runPair ⟨.empty 0, .empty 0⟩
+      [.on true (.append (.str sA)), .on true (.insert 0 (.str [91, 98, 93])),
+       .on false (.append (.str sA)), .extendBy false]).1.tgt.lst.map fun o => ser o.e)
+    = [sA, [91, 98, 93], sA] := rfl
+
 /-- **The pool of the property is closed.** If everything stored is a group made from a
 string (`TexGroup.parse`, position `-1`) or a blank string, and the operation brings in only
 such values, then besides `step_refines` the state stays in that pool. -/
@@ -179,6 +252,10 @@ theorem failed_ops_keep_state (st : ArgsSt) (op : ArgsOp) (h : Inv st)
     rcases slice_char st lo hi h with ⟨st', hs, _, _⟩
     rw [hs]; exact ⟨rfl, rfl⟩
   | str => exact ⟨rfl, rfl⟩
+  | extendSlice lo hi =>
+    simp only [Args.step] at herr
+    rcases extendSlice_char st lo hi h with ⟨st', hs, _⟩
+    rw [hs] at herr; simp [isError] at herr
 -- remove(' ') on TexArgs(['{a}', ' ', '{b}']): ValueError, `.all` keeps its blank
 example : Args.step stAB (.remove (.str [32])) = (stAB, .valueError) := rfl
 -- a mismatched string
